@@ -228,8 +228,19 @@ def knownC07 (c : SCfg) (ls : List Label) (r : Option (String × List (Nat × Na
     let late := (lateSerialDispatches ls).filter (fun a => serialOf c a.1)
     if !involved.isEmpty && involved.all (fun a => late.contains a) then some "F-C07" else none
 
+/-- hypothesis of `C08.lts_no_dispatch_after_final_failure`, evaluated on the log of every real run: an attempt ends
+    (`END`) only while `execute` awaits its scenarios (phase `selecting` of the acceptor: scenario futures are polled
+    nowhere else) -/
+def ewsStep (c : SCfg) (a : SState × Bool) (l : Label) : SState × Bool :=
+  (stepL c a.1 l, match l with
+    | .endA .. => a.2 && a.1.phase == .selecting
+    | _ => a.2)
+
+def endsWhileSelecting (c : SCfg) (ls : List Label) : Bool := (ls.foldl (ewsStep c) (({} : SState), true)).2
+
 /-- C08 -/
 def failFast (c : SCfg) (ls : List Label) : Option String :=
+  if !endsWhileSelecting c ls then some "an attempt ended while execute was not awaiting its scenarios" else
   if !c.failFast then none
   else
     let firstFinal := idxOf? (fun l => match l with | .endA _ failed retried _ => failed && !retried | _ => false) ls
